@@ -16,9 +16,11 @@ BUDGET = {
     "thorough": {"runs": 250_000, "wall": 1500, "chunk": 100, "minimise": 250},
 }
 REQUIRED_PROBES = {"quick": ("early_select", "data_not_selected", "data_selected", "separate_req", "deselect_req",
-                             "unsolicited_select_rsp", "reconnect", "burst"),
+                             "unsolicited_select_rsp", "reconnect", "burst", "close_inside_frame",
+                             "system_ids_restarted"),
                    "thorough": ("early_select", "data_not_selected", "data_selected", "separate_req", "deselect_req",
-                                "unsolicited_select_rsp", "reconnect", "burst", "reply_in_not_selected")}
+                                "unsolicited_select_rsp", "reconnect", "burst", "reply_in_not_selected",
+                                "close_inside_frame", "system_ids_restarted")}
 EVIDENCE = {
     "level": "exploration",
     "rule": ("seeded histories over {connect (also with a Select.req already in flight), peer close, local "
@@ -45,6 +47,8 @@ SCHEDS = [
     {"policy": "pct", "d": 2, "horizon": 300, "preempt": "line"},
     {"policy": "rr", "q": 3, "preempt": "line"},
     {"policy": "random", "p": 0.2, "preempt": "sync"},
+    {"policy": "random", "p": 0.5, "preempt": "sync"},
+    {"policy": "pct", "d": 2, "horizon": 150, "preempt": "sync"},
 ]
 T6 = 2.0
 OPS = ["select_req", "select_req", "deselect_req", "linktest_req", "linktest_rsp", "separate_req", "reject_req",
@@ -69,9 +73,18 @@ def gen_plan(rng, tier, index):
         "early_select": rng.random() < 0.5, "early_steps": rng.choice([0, 0, 0, 0, 0, 1, 2, 5, 10, 20, 40, 80]),
         "select_answer": rng.choice(["ok", "ok", "ok", "status1", "status2", "none"]),
         "latency": rng.choice([0.0, 0.0005, 0.01]),
+        # the peer numbers its transactions from the same start value on every connection (system bytes only have to
+        # be unique among open transactions)
+        "restart_ids": rng.random() < 0.5,
+        # frames of a burst are sent this far apart (0: back to back)
+        "stagger": rng.choice([0, 0, 0.001, 0.01, 0.04]),
     }
     sched = dict(rng.choice(SCHEDS))
     sched["seed"] = rng.getrandbits(48)
+    if rng.random() < 0.4:
+        # fault: a thread is descheduled for a moment just before one of its synchronisation calls
+        sched["sync_stall"] = {"n": rng.choice([1, 2, 4]), "horizon": rng.choice([100, 400, 1500, 6000]),
+                               "durs": [0.002, 0.03]}
     plan["sched"] = sched
     return plan
 
@@ -171,6 +184,10 @@ def run(sim, plan):
             configure(peer)
         conn["n"] += 1
         conn["peer"] = peer
+        if plan.get("restart_ids"):
+            if conn["n"] > 1 and sysgen["n"] > 0x100:
+                sim.probe("system_ids_restarted")
+            sysgen["n"] = 0x100
         model.set("NS")
         if early:
             # Select.req is already on the wire while the accepting thread is still inside on_connected
@@ -252,7 +269,7 @@ def run(sim, plan):
             peer.send(rc.control(rc.DESELECT_RSP, 0xDEAD0000 + next_sys(), b3=0))
         elif op in ("data", "data_w"):
             system = 0x40000000 + next_sys()
-            body = rc.enc(rc.ls(rc.b(arg), rc.a(f"m{system & 0xFFFF}")))
+            body = rc.enc(rc.ls(rc.b(arg), rc.a(f"m{conn['n']}.{system & 0xFFFF}")))
             fr = rc.data(10, 3, op == "data_w", system, body)
             peer.send(fr)
             if sel == {"S"}:
@@ -260,10 +277,38 @@ def run(sim, plan):
                 sim.probe("data_selected")
             elif sel == {"NS"}:
                 expect_reject.append((peer, system))
-                forbid_deliver.append(system)
+                forbid_deliver.append((system, body))
                 sim.probe("data_not_selected")
             # ambiguous model state: nothing is asserted for this frame
         return op
+
+    def check_quiescent(where):
+        """Bounded liveness: on a quiet, healthy link every request sent so far has its answer and every deliverable
+        data message is delivered - an answer that only appears when later traffic arrives is none if nothing follows."""
+        peer = conn["peer"]
+
+        def pending():
+            out = []
+            for (p, stype, system, t, healthy) in expect_resp:
+                if p is peer and healthy and p.open and not any(
+                        f.system == system and f.stype in (stype + 1, rc.REJECT_REQ) for f in p.frames):
+                    out.append((rc.STYPE_NAMES[stype], system))
+            return out
+
+        def undelivered():
+            have = {(r[1], r[5]) for r in ep.received}
+            return [w for w in expect_deliver if (w[0], w[4]) not in have]
+
+        if not peer.open:
+            return
+        sim.wait_until(lambda: not pending() and not undelivered(), 2.0)
+        if pending():
+            name, system = pending()[0]
+            sim.violation("C05.R2", f"after {where}: {name} #{system:#x} is still unanswered although the link has been "
+                          f"quiet for 2 virtual s (history {op_kinds[-6:]})", sig=f"C05.R2|{name}|stalled")
+        if undelivered():
+            sim.violation("C05.R4", f"after {where}: data message #{undelivered()[0][0]:#x} sent while SELECTED is still "
+                          "undelivered although the link has been quiet for 2 virtual s", sig="C05.R4|stalled")
 
     # ------------------------------------------------------------------------------------------------ history
     proto.enable()
@@ -275,9 +320,13 @@ def run(sim, plan):
             sim.probe("burst")
             kinds = []
             for sub in arg:
+                if kinds and plan.get("stagger"):
+                    sim.advance(plan["stagger"])
                 kinds.append(send_op(peer, sub, 1, in_burst=True))
             op_kinds.append("burst(" + ",".join(kinds) + ")")
+            sim.focus(2)
             sim.advance(0.4)
+            check_quiescent("burst")
             check_state("burst")
             history_after_select += 1
             continue
@@ -286,6 +335,7 @@ def run(sim, plan):
                   "select_rsp_unsol", "select_rsp_unsol_bad", "deselect_rsp_unsol", "data", "data_w"):
             send_op(peer, op, arg)
             sim.advance(0.3)
+            check_quiescent(op)
             check_state(op)
             history_after_select += 1
         elif op in ("api_linktest", "api_select", "api_deselect"):
@@ -361,7 +411,17 @@ def run(sim, plan):
             history_after_select += 1
         elif op == "peer_close":
             _close_windows(expect_resp, peer)
-            peer.close()
+            if arg:
+                # the connection ends inside a frame (arg 1: orderly close, arg 2: reset)
+                raw = rc.data(10, 3, False, 0x7E000000 + conn["n"], rc.enc(rc.a("never complete" * 3))).encode()
+                cut = [1, 3, 4, 5, 13, 14, 20, len(raw) - 1][(len(op_kinds) + conn["n"]) % 8]
+                peer.send_bytes(raw[:cut])
+                sim.advance(0.1)
+                sim.probe("close_inside_frame")
+            if arg == 2:
+                peer.reset()
+            else:
+                peer.close()
             sim.wait_until(lambda: ep.state == "NOT_CONNECTED", 8)
             model.set("NC")
             check_state("peer_close")
@@ -401,7 +461,7 @@ def run(sim, plan):
                           sig=f"C05.R2|{name}|rejected")
     # R3: data while NOT SELECTED: exactly one Reject.req (reason 4) with its system bytes, never delivered
     delivered = [(r[1], r[2], r[3], r[4], r[5]) for r in ep.received]
-    delivered_systems = [d[0] for d in delivered]
+    delivered_keys = [(d[0], d[4]) for d in delivered]
     for (p, system) in expect_reject:
         rej = [f for f in p.frames if f.stype == rc.REJECT_REQ and f.system == system]
         if p.open and len(rej) != 1:
@@ -410,18 +470,19 @@ def run(sim, plan):
         if rej and rej[0].function != 4:
             sim.violation("C05.R3", f"Reject.req for #{system:#x} carries reason {rej[0].function}, expected 4 "
                           "(entity not selected)", sig="C05.R3|reject-reason")
-    for system in forbid_deliver:
-        if system in delivered_systems:
+    for (system, body) in forbid_deliver:
+        if (system, body) in delivered_keys:
             sim.violation("C05.R3", f"data message #{system:#x} received while NOT SELECTED was delivered to the "
                           "application", sig="C05.R3|delivered-while-not-selected")
     # R4: data while SELECTED delivered exactly once, in order
     want = [d for d in expect_deliver]
-    got = [d for d in delivered if d[0] in {w[0] for w in want}]
+    got = [d for d in delivered if (d[0], d[4]) in {(w[0], w[4]) for w in want}]
     if got != want:
         missing = [w[0] for w in want if w not in got]
         sim.violation("C05.R4", f"data messages sent while SELECTED: {len(want)}, delivered {len(got)}; missing "
                       f"{[hex(m) for m in missing][:5]}", sig="C05.R4|" + ("lost" if missing else "duplicated-or-reordered"))
-    extra = [d for d in delivered if d[0] not in {w[0] for w in want} and d[0] not in forbid_deliver]
+    extra = [d for d in delivered if (d[0], d[4]) not in {(w[0], w[4]) for w in want}
+             and (d[0], d[4]) not in forbid_deliver]
     if extra:
         sim.violation("C05.R4", f"messages delivered that were never sent as deliverable: {extra[:3]}",
                       sig="C05.R4|unexpected-delivery")
